@@ -74,14 +74,18 @@ MulAcc(a, b, j) ==
   ELSE BAdd(BShift(BMulSmall(a, b[j]), j - 1), MulAcc(a, b, j + 1))
 BMul(a, b) == MulAcc(a, b, 1)
 
-\* 10^18 (amount per unit of voting power) = B^6
+\* The amount bonded per unit of voting power is B^UnitLimbs: 10^18 (UnitLimbs = 6) for the powers the application
+\* counts in.  Histories whose powers are far beyond the tools' 32-bit integers are recorded in units of 10^12 powers
+\* (every bonded amount a multiple of 10^30): they are evaluated with UnitLimbs <- 10 (RigoTraceBig.cfg), everything else
+\* being the same.
+UnitLimbs == 6
 E18 == <<0, 0, 0, 0, 0, 0, 1>>
 \* power (small natural) -> amount
-PowerAmount(p) == BShift(FromNat(p), 6)
-\* a is a positive multiple of 10^18
-IsMultE18(a) == Len(a) >= 7 /\ \A i \in 1..6 : a[i] = 0
-\* a \div 10^18 as a big number
-BDivE18(a) == IF Len(a) <= 6 THEN <<>> ELSE SubSeq(a, 7, Len(a))
+PowerAmount(p) == BShift(FromNat(p), UnitLimbs)
+\* a is a positive multiple of the amount per unit of power
+IsMultE18(a) == Len(a) >= UnitLimbs + 1 /\ \A i \in 1..UnitLimbs : a[i] = 0
+\* a \div (amount per unit of power) as a big number
+BDivE18(a) == IF Len(a) <= UnitLimbs THEN <<>> ELSE SubSeq(a, UnitLimbs + 1, Len(a))
 
 \* sum of a sequence / of a function's range of big numbers
 RECURSIVE BSumSeq(_)
